@@ -469,7 +469,11 @@ def read_one_contract(h):
     W = SockWorld(h, header_length=h.choice("header_length", [8, 20]))
     sock = W.make_socket(connected=True)
     rd = sock.attrs["_reader"]
+    deadlines = []
+    W.w.site_checks.append(lambda e: deadlines.append(len(h.it.path.ghost.get("timeouts", []))) if e[0] == "readexactly" else None)
     r = h.method(sock, "_read_one_message")
+    h.oblige("no deadline is armed while a frame is being read: what is delivered must not depend on how long the segments take to arrive",
+             all(d == 0 for d in deadlines))
     ev = h.it.path.events
     reads = [e for e in ev if e[0] == "readexactly"]
     h.oblige("the transport is only read through readexactly", not any(e[0] == "read-other" for e in ev))
